@@ -31,7 +31,7 @@ func suiteV04(c *vctx) {
 		long257 := strings.Repeat("r", 257)
 		pws := map[string]string{
 			"root": "Root-Passw0rd", "alice": "pa:ss:word", "bob": "pässwörd-\U0001F511", "carol": "quote\"back\\slash\n\ttab",
-			"a@b": "at-Passw0rd", "A.b-c_d@e": " lead and trail ", "u255": long255, "u256": long256, "u257": long257,
+			"a@b": "at-Passw0rd", "A.b-c_d@e": " lead and trail ", "alice@example.com": "mail-Passw0rd", "a@b@c": "two-ats", "u255": long255, "u256": long256, "u257": long257,
 			"x": "x", "nul": "nul\x00byte", "bin": "\xff\xfe\x80bin",
 		}
 		a.iface.Init("root", pws["root"])
@@ -54,6 +54,7 @@ func suiteV04(c *vctx) {
 		users := a.users()
 		utok := vUsersTok(users)
 		names := []string{"root", "alice", "bob", "carol", "a@b", "A.b-c_d@e", "u255", "u256", "u257", "x", "nul", "bin",
+			"alice@example.com", "a@b@c", "alice@example.com@corp", "alice@@", "a@b@c@d", "@@", "alice@", "bob@x@y",
 			"nobody", "", "Alice", "ALICE", "alice ", " alice", "alice\n", "./alice", "../fr/alice", "alice@example.org", "a", "a@", "@b",
 			"alice,dc=example", "cn=alice", "alice:extra", ":alice", strings.Repeat("n", 255), strings.Repeat("n", 256), strings.Repeat("n", 257)}
 		bin := os.Getenv("VERIF_BIN")
@@ -72,7 +73,7 @@ func suiteV04(c *vctx) {
 			case 0, 1:
 				p = pws[u] // the right password (if the user exists)
 			case 2: // near misses of the right password
-				q := pws[names[r.Intn(12)]]
+				q := pws[names[r.Intn(14)]]
 				switch r.Intn(6) {
 				case 0:
 					p = strings.ToUpper(q)
@@ -90,7 +91,7 @@ func suiteV04(c *vctx) {
 					p = strings.Split(q, ":")[0]
 				}
 			case 3:
-				p = pws[names[r.Intn(12)]] // another user's password
+				p = pws[names[r.Intn(14)]] // another user's password
 			case 4:
 				p = ""
 			default:
@@ -151,6 +152,20 @@ func suiteV04(c *vctx) {
 				}
 				lref, _, _, _, _ := a.ref.Authenticate(cutu, p)
 				c.emit("law.C04.ldap_equals_store_for_name_up_to_at "+id, vtf(got == lref))
+			}
+			// LDAP bind names built from an existing user: <user>@<anything, further '@' included>
+			if r.Intn(3) == 0 {
+				base := []string{"root", "alice", "bob", "carol", "x"}[r.Intn(5)]
+				dn := base + "@" + []string{"example.org", "a@b", "@", "x@y@z", "", "example.com@corp", "alice@example.com"}[r.Intn(7)]
+				bp := pws[base]
+				if r.Intn(4) == 0 {
+					bp = "wrong-" + bp
+				}
+				code, lerr := ldapHandler{store: a.iface}.Bind(dn, bp, nil)
+				got := code == ldap.LDAPResultSuccess && lerr == nil
+				c.emit(fmt.Sprintf("front.ldap %s %s %s", utok, vxs(dn), vxs(bp)), vtf(got))
+				lref, _, _, _, _ := a.ref.Authenticate(base, bp)
+				c.emit(fmt.Sprintf("law.C04.ldap_equals_store_for_name_up_to_at %s %s", vxs(dn), vxs(bp)), vtf(got == lref))
 			}
 			// command line (the built binary), within argv's domain
 			if bin != "" && cli < 40 && u != "" && p != "" && !strings.ContainsRune(u, 0) && !strings.ContainsRune(p, 0) &&
